@@ -678,8 +678,15 @@ func c17SubContext(c *Ctx, r *Report) {
 		info := fi.Pkg.TypesInfo
 		ast.Inspect(fi.Decl.Body, func(x ast.Node) bool {
 			ce, ok := x.(*ast.CallExpr)
-			if !ok || !isPoolCall(info, ce, "Get") {
+			if !ok {
 				return true
+			}
+			if !isPoolCall(info, ce, "Get") {
+				if _, arg, _ := poolAcquireWrapper(c, info, ce); arg < 0 {
+					return true
+				}
+			} else if _, arg, _ := poolAcquireWrapperDecl(c, fi); arg >= 0 {
+				return true // the Get inside an acquire wrapper: judged at the wrapper's call sites
 			}
 			n++
 			inStage := false
@@ -724,9 +731,21 @@ func c17NegativeIndex(c *Ctx, r *Report) {
 					continue
 				}
 				found = true
-				txt := strings.ReplaceAll(exprStr(as.Rhs[0]), " ", "")
 				// strings.Count(<split string>, <sep>) + 1
-				okShape := strings.HasPrefix(txt, "strings.Count(splitter.S,") && strings.HasSuffix(txt, ")+1")
+				okShape := false
+				if add, isBin := ast.Unparen(as.Rhs[0]).(*ast.BinaryExpr); isBin && add.Op == token.ADD {
+					for _, pair := range [][2]ast.Expr{{add.X, add.Y}, {add.Y, add.X}} {
+						one, isC := constInt(info, pair[1])
+						cnt, isCall := ast.Unparen(pair[0]).(*ast.CallExpr)
+						if isC && one == 1 && isCall && calleeName(info, cnt) == "strings.Count" && len(cnt.Args) == 2 {
+							if se, isSel := ast.Unparen(cnt.Args[0]).(*ast.SelectorExpr); isSel && se.Sel.Name == "S" {
+								if isNamed(info.TypeOf(se.X), "rare/pkg/stringSplitter", "Splitter") {
+									okShape = true
+								}
+							}
+						}
+					}
+				}
 				r.Check(okShape, rule, fi.Name, stmtStr(as), c.Pos(as.Pos()), "normalise: a negative index counts from the end of the very list that is split (Count(sep)+1 elements)", "a negative index is normalised with "+exprStr(as.Rhs[0])+" instead of the element count of the list being split")
 			}
 			return true
